@@ -172,3 +172,36 @@ Proof.
   split; [apply wf_ab|]. split; [vm_compute; reflexivity|].
   exists 0%N. vm_compute. discriminate.
 Qed.
+
+(* ---- opaque values: TIME / IP / BACKEND / ACL are cells whose content the model copies and never inspects ----
+   declare local var.v0 BACKEND (= "F_a"); declare local var.v1 BACKEND (= "F_b");
+   sub f1(BACKEND var.v10) { set var.v10 = var.v11; }  with var.v11 a BACKEND local of the callee ("F_c") *)
+Definition σ_op : state :=
+  {| heap := [VOpaque 2 [Byte.x61]; VOpaque 2 [Byte.x62]]; locals := [(1%N, 1%nat); (0%N, 0%nat)]; globals := [];
+     groups := []; hdrs := []; logs := []; depth := 0; trace := [] |}.
+Definition sub_fop : sub :=
+  {| s_params := [(10%N, TOpaque 2)]; s_ret := None;
+     s_body := [SDeclare 11 (TOpaque 2) None; SSet (NLocal 10) AEq (EVar (NLocal 11))] |}.
+Definition prog_fop : program := [(1%N, sub_fop)].
+
+(* set var.v1 = var.v0;  copies the BACKEND value: var.v1 reads "a", var.v0 still "a", two distinct cells;
+   call f1(var.v0);  the callee overwrites its parameter: var.v0 still reads "a" *)
+Definition opaque_example_stmt : Prop :=
+  match exec repaired std_ops prog_fop 10 false (SSet (NLocal 1) AEq (EVar (NLocal 0))) σ_op,
+        exec repaired std_ops prog_fop 10 false (SCall 1 [EVar (NLocal 0)]) σ_op with
+  | OK (ONorm, σ1), OK (ONorm, σ2) =>
+      read σ1 (NLocal 1) = Some (VOpaque 2 [Byte.x61]) /\ read σ1 (NLocal 0) = Some (VOpaque 2 [Byte.x61]) /\
+      loc_of σ1 (NLocal 0) <> loc_of σ1 (NLocal 1) /\
+      read σ2 (NLocal 0) = Some (VOpaque 2 [Byte.x61]) /\ read σ2 (NLocal 1) = Some (VOpaque 2 [Byte.x62])
+  | _, _ => False
+  end.
+Lemma opaque_example : opaque_example_stmt.
+Proof. vm_compute. repeat split; try reflexivity. discriminate. Qed.
+
+(* BEFORE the repair of parameter passing the same call changes the caller's BACKEND local (no conversion is
+   needed for an opaque argument, so the callee got the caller's own cell) *)
+Lemma param_alias_opaque_refutes :
+  exists r σ', call original std_ops prog_fop 10 sub_fop [0%nat] σ_op = OK (r, σ') /\
+               read σ' (NLocal 0) <> read σ_op (NLocal 0).
+Proof. eexists _, _. split; [vm_compute; reflexivity|]. vm_compute. discriminate. Qed.
+
